@@ -205,11 +205,22 @@ impl DebugSession {
         let Some(dbg) = self.debugger.as_ref() else {
             return;
         };
-        let current: HashMap<u32, debugger::address::Address> = dbg
-            .breakpoints_snapshot()
+        let snapshot = dbg.breakpoints_snapshot();
+        let current: HashMap<u32, debugger::address::Address> = snapshot
             .iter()
             .map(|view| (view.number, view.addr))
             .collect();
+        // the breakpoint that now sits where `addr` was (`addr` may still be in its form from
+        // before the program was loaded)
+        let successor = |addr: &debugger::address::Address| {
+            snapshot
+                .iter()
+                .find(|view| {
+                    view.addr == *addr
+                        || matches!((addr, &view.place), (debugger::address::Address::Global(global), Some(place)) if place.address == *global)
+                })
+                .map(|view| view.number)
+        };
         let records = self
             .breakpoints_by_source
             .values_mut()
@@ -220,12 +231,38 @@ impl DebugSession {
             if record.numbers.is_empty() {
                 continue;
             }
+            // a breakpoint set later on the same address (by a request of another kind) replaces
+            // the debugger's breakpoint and its number: the record goes on with the new number
+            for (number, addr) in record.numbers.iter_mut().zip(&record.addresses) {
+                if !current.contains_key(number) {
+                    if let Some(n) = successor(addr) {
+                        *number = n;
+                    }
+                }
+            }
             record.addresses = record
                 .numbers
                 .iter()
                 .filter_map(|number| current.get(number).copied())
                 .collect();
         }
+    }
+
+    /// Addresses of `prev` that no remaining record (of any kind) has as its location: only
+    /// these are taken out of the debugger when the records of `prev` are replaced.
+    fn removable_addresses(&self, prev: &[BreakpointRecord]) -> Vec<debugger::address::Address> {
+        prev.iter()
+            .flat_map(|record| record.addresses.iter().copied())
+            .filter(|addr| {
+                !self
+                    .breakpoints_by_source
+                    .values()
+                    .flatten()
+                    .chain(self.function_breakpoints.iter())
+                    .chain(self.instruction_breakpoints.iter())
+                    .any(|record| record.addresses.contains(addr))
+            })
+            .collect()
     }
 
     pub(super) fn handle_set_breakpoints(&mut self, req: &DapRequest) -> anyhow::Result<()> {
@@ -244,6 +281,7 @@ impl DebugSession {
             .breakpoints_by_source
             .remove(&source_path)
             .unwrap_or_default();
+        let removable = self.removable_addresses(&prev);
         let mut new_breakpoints = Vec::new();
         let mut rsp_bps = Vec::new();
         let mut pending_events = Vec::new();
@@ -261,10 +299,10 @@ impl DebugSession {
                 .as_mut()
                 .ok_or_else(|| anyhow!("setBreakpoints: debugger not initialized"))?;
 
+            for addr in removable {
+                let _ = dbg.remove_breakpoint(addr);
+            }
             for record in prev {
-                for addr in record.addresses {
-                    let _ = dbg.remove_breakpoint(addr);
-                }
                 pending_events.push(InternalEvent::Breakpoint {
                     reason: "removed",
                     breakpoint: json!({ "id": record.id }),
@@ -344,6 +382,7 @@ impl DebugSession {
 
         self.breakpoints_by_source
             .insert(source_path, new_breakpoints);
+        self.refresh_breakpoint_addresses();
         for event in pending_events {
             self.enqueue_event(event);
         }
@@ -357,6 +396,7 @@ impl DebugSession {
     ) -> anyhow::Result<()> {
         self.refresh_breakpoint_addresses();
         let prev = std::mem::take(&mut self.function_breakpoints);
+        let removable = self.removable_addresses(&prev);
         let bps = req
             .arguments
             .get("breakpoints")
@@ -388,10 +428,10 @@ impl DebugSession {
                 .as_mut()
                 .ok_or_else(|| anyhow!("setFunctionBreakpoints: debugger not initialized"))?;
 
+            for addr in removable {
+                let _ = dbg.remove_breakpoint(addr);
+            }
             for record in prev {
-                for addr in record.addresses {
-                    let _ = dbg.remove_breakpoint(addr);
-                }
                 pending_events.push(InternalEvent::Breakpoint {
                     reason: "removed",
                     breakpoint: json!({ "id": record.id }),
@@ -501,6 +541,7 @@ impl DebugSession {
         }
         self.next_breakpoint_id = next_id;
         self.function_breakpoints = new_breakpoints;
+        self.refresh_breakpoint_addresses();
         for event in pending_events {
             self.enqueue_event(event);
         }
@@ -528,6 +569,7 @@ impl DebugSession {
     ) -> anyhow::Result<()> {
         self.refresh_breakpoint_addresses();
         let prev = std::mem::take(&mut self.instruction_breakpoints);
+        let removable = self.removable_addresses(&prev);
         let bps = req
             .arguments
             .get("breakpoints")
@@ -545,10 +587,10 @@ impl DebugSession {
                 .as_mut()
                 .ok_or_else(|| anyhow!("setInstructionBreakpoints: debugger not initialized"))?;
 
+            for addr in removable {
+                let _ = dbg.remove_breakpoint(addr);
+            }
             for record in prev {
-                for addr in record.addresses {
-                    let _ = dbg.remove_breakpoint(addr);
-                }
                 pending_events.push(InternalEvent::Breakpoint {
                     reason: "removed",
                     breakpoint: json!({ "id": record.id }),
@@ -666,6 +708,7 @@ impl DebugSession {
         }
         self.next_breakpoint_id = next_id;
         self.instruction_breakpoints = new_breakpoints;
+        self.refresh_breakpoint_addresses();
         for event in pending_events {
             self.enqueue_event(event);
         }
